@@ -12,7 +12,8 @@
 (* The formulas are checked statement by statement (niOK / detOK), which makes them prefix         *)
 (* properties, so they are invariants and the view may forget the histories.                       *)
 (* With Emit a case "OUT {P, Q, sched, setting}" is printed for every behaviour prefix that ends   *)
-(* with a statement of P (statements of Q after P's last one cannot matter to P's output).         *)
+(* with a statement of P (statements of Q after P's last one cannot matter to P's output),         *)
+(* together with the model's own prediction ni / det for it (used as a drift indicator only).      *)
 EXTENDS Isolation, Json
 
 CONSTANTS MaxP, MaxQ,      \* statements per program (the leading create is not counted)
@@ -41,8 +42,9 @@ Init == /\ \E b \in Addrs : w = NewWorld(b)
         /\ dead = FALSE /\ niOK = TRUE /\ detOK = TRUE
 
 Setting == IF dead THEN "after" ELSE IF hq = <<>> THEN "alone" ELSE "beside"
-CaseJson(p, q, sc, dd) == ToJson([P |-> p, Q |-> q, sched |-> sc,
-                                  setting |-> IF dd THEN "after" ELSE IF q = <<>> THEN "alone" ELSE "beside"])
+\* ni / det: what this model (with the deviations switched on in the configuration) predicts for the case
+CaseJson(p, q, sc, dd, ni, det) == ToJson([P |-> p, Q |-> q, sched |-> sc, ni |-> ni, det |-> det,
+                                           setting |-> IF dd THEN "after" ELSE IF q = <<>> THEN "alone" ELSE "beside"])
 
 StepP(s) ==
     /\ Enabled(w, "P", s) /\ (s.k # "create" => Len(hp) <= MaxP)
@@ -51,7 +53,7 @@ StepP(s) ==
        /\ outP' = Append(outP, r.out) /\ out1' = Append(out1, r1.out) /\ out2' = Append(out2, r2.out)
        /\ niOK' = (niOK /\ r.out = r1.out) /\ detOK' = (detOK /\ r1.out = r2.out)
     /\ hp' = Append(hp, s) /\ sched' = Append(sched, "P") /\ UNCHANGED <<hq, dead>>
-    /\ (Emit /\ s.k # "create" => PrintT("OUT " \o CaseJson(hp', hq, sched', dead)))
+    /\ (Emit /\ s.k # "create" => PrintT("OUT " \o CaseJson(hp', hq, sched', dead, niOK', detOK')))
 StepQ(s) ==
     /\ ~dead /\ Enabled(w, "Q", s) /\ (s.k # "create" => Len(hq) <= MaxQ)
     /\ w' = Apply(w, "Q", s).w
